@@ -6,6 +6,7 @@ use std::collections::HashSet;
 
 extern "C" {
     fn gettid() -> i32;
+    fn getrusage(who: i32, usage: *mut [i64; 18]) -> i32;
 }
 
 fn main() {
@@ -27,7 +28,7 @@ fn main() {
     let t0 = std::time::Instant::now();
     let dt = t0.elapsed().as_nanos();
     println!(
-        "{} heap={:p} stack={:p} wall={} dt={} pid={} tid={} {} urandom={} cpus={}",
+        "{} heap={:p} stack={:p} wall={} dt={} pid={} tid={} {} urandom={} cpus={} maxrss={}",
         out,
         &*boxed,
         &local,
@@ -44,6 +45,10 @@ fn main() {
             let mut b = [0u8; 4];
             std::fs::File::open("/dev/urandom").and_then(|mut f| f.read_exact(&mut b)).map(|()| format!("{:02x}{:02x}{:02x}{:02x}", b[0], b[1], b[2], b[3])).unwrap_or_default()
         },
-        std::thread::available_parallelism().map_or(0, std::num::NonZero::get)
+        std::thread::available_parallelism().map_or(0, std::num::NonZero::get),
+        {
+            let mut ru = [0i64; 18];
+            if unsafe { getrusage(0, &mut ru) } == 0 { ru[4] } else { -1 }
+        }
     );
 }
